@@ -52,10 +52,20 @@ theorem get?_modStreamW (s : Streams) (k : Nat) (f : Stream → Stream × List S
 theorem decNumStreams_get? (s : Streams) (k k' : Nat) :
     (s.decNumStreams k).store.get? k' =
       if k' = k then (s.store.get? k).map (fun a => { a with isCounted := false }) else s.store.get? k' := by
+  have key : ∀ (t : Streams) (f : Counts → Counts), t.store = s.store →
+      ((t.modCounts f).modStream k fun st => { st with isCounted := false }).store.get? k' =
+        if k' = k then (s.store.get? k).map (fun a => { a with isCounted := false }) else s.store.get? k' := by
+    intro t f ht
+    rw [get?_modStream (t.modCounts f) k (fun st => { st with isCounted := false }) (fun _ => rfl)]
+    show (if k' = k then (t.store.get? k).map _ else t.store.get? k') = _
+    rw [ht]
   unfold Streams.decNumStreams
   simp only
-  split <;> (rw [get?_modStream _ _ _ (fun _ => rfl)]; simp only [Streams.modCounts]) <;>
-    (repeat' split) <;> simp only [panic_store']
+  generalize hs1 : (if (s.stream k).isCounted = true then s else s.panic "assertion failed: stream.is_counted") = s1
+  have h1 : s1.store = s.store := by subst hs1; split <;> simp only [panic_store']
+  split
+  · apply key; split <;> simp only [panic_store', h1]
+  · apply key; split <;> simp only [panic_store', h1]
 
 /-- `b` is `a` up to the `is_counted` flag -/
 def CntEq (a b : Stream) : Prop := { b with isCounted := a.isCounted } = a
@@ -200,23 +210,28 @@ theorem failState_of_closed (err : PErr) (a : Stream) (hc : a.state.isClosed = t
 section
 variable {a b c : Stream}
 
-theorem Failed.key {err : PErr} (h : Failed err a b) : b.key = a.key := congrArg Stream.key h.rest
-theorem Failed.id {err : PErr} (h : Failed err a b) : b.id = a.id := congrArg Stream.id h.rest
+theorem Failed.key {err : PErr} (h : Failed err a b) : b.key = a.key :=
+  have e := congrArg Stream.key h.rest; e
+theorem Failed.id {err : PErr} (h : Failed err a b) : b.id = a.id :=
+  have e := congrArg Stream.id h.rest; e
 theorem Failed.isPendingOpen {err : PErr} (h : Failed err a b) : b.isPendingOpen = a.isPendingOpen :=
-  congrArg Stream.isPendingOpen h.rest
-theorem Failed.refCount {err : PErr} (h : Failed err a b) : b.refCount = a.refCount := congrArg Stream.refCount h.rest
+  have e := congrArg Stream.isPendingOpen h.rest; e
+theorem Failed.refCount {err : PErr} (h : Failed err a b) : b.refCount = a.refCount :=
+  have e := congrArg Stream.refCount h.rest; e
 theorem Failed.pendingRecv {err : PErr} (h : Failed err a b) : b.pendingRecv = a.pendingRecv :=
-  congrArg Stream.pendingRecv h.rest
-theorem Failed.recvFlow {err : PErr} (h : Failed err a b) : b.recvFlow = a.recvFlow := congrArg Stream.recvFlow h.rest
+  have e := congrArg Stream.pendingRecv h.rest; e
+theorem Failed.recvFlow {err : PErr} (h : Failed err a b) : b.recvFlow = a.recvFlow :=
+  have e := congrArg Stream.recvFlow h.rest; e
 theorem Failed.inFlightRecvData {err : PErr} (h : Failed err a b) : b.inFlightRecvData = a.inFlightRecvData :=
-  congrArg Stream.inFlightRecvData h.rest
-theorem Failed.resetAt {err : PErr} (h : Failed err a b) : b.resetAt = a.resetAt := congrArg Stream.resetAt h.rest
+  have e := congrArg Stream.inFlightRecvData h.rest; e
+theorem Failed.resetAt {err : PErr} (h : Failed err a b) : b.resetAt = a.resetAt :=
+  have e := congrArg Stream.resetAt h.rest; e
 theorem Failed.isPendingAccept {err : PErr} (h : Failed err a b) : b.isPendingAccept = a.isPendingAccept :=
-  congrArg Stream.isPendingAccept h.rest
+  have e := congrArg Stream.isPendingAccept h.rest; e
 theorem Failed.pendingPushPromises {err : PErr} (h : Failed err a b) : b.pendingPushPromises = a.pendingPushPromises :=
-  congrArg Stream.pendingPushPromises h.rest
+  have e := congrArg Stream.pendingPushPromises h.rest; e
 theorem Failed.window {err : PErr} (h : Failed err a b) : b.sendFlow.windowSize = a.sendFlow.windowSize :=
-  congrArg (fun x => x.sendFlow.windowSize) h.rest
+  have e := congrArg (fun x => x.sendFlow.windowSize) h.rest; e
 
 /-- a failed stream stays failed when freed capacity is handed out afterwards (it asks for none) -/
 theorem Failed.unt {err : PErr} (h : Failed err a b) (hu : Unt b c) (hr : Resolved c) : Failed err a c :=
@@ -247,5 +262,141 @@ theorem Failed.again {err : PErr} (h1 : Failed err a b) (h2 : Failed err b c) : 
   rw [h2.state, failState_of_closed err b h1.resolved.1 h1.sched]
   exact h1.state
 end
+
+-- ===================================================================== the closure, step by step, on its own entry
+
+theorem maskF_notifySend (x : Stream) : maskF x.notifySend.1 = maskF x := maskF_of_mask (unt_notifySend x)
+theorem maskF_notifyRecv (x : Stream) : maskF x.notifyRecv.1 = maskF x := by
+  cases h : x.recvTask <;> simp [Stream.notifyRecv, h, maskF, mask]
+theorem maskF_notifyPush (x : Stream) : maskF x.notifyPush.1 = maskF x := by
+  cases h : x.pushTask <;> simp [Stream.notifyPush, h, maskF, mask]
+
+theorem setReset_more (x : Stream) (r : Reason) (i : Initiator) :
+    maskF (x.setReset r i).1 = maskF x ∧ (x.setReset r i).1.state = x.state.setReset x.id r i ∧
+    (x.setReset r i).1.pendingSend = x.pendingSend ∧ (x.setReset r i).1.bufferedSendData = x.bufferedSendData ∧
+    (x.setReset r i).1.requestedSendCapacity = x.requestedSendCapacity := by
+  cases h1 : x.sendTask <;> cases h2 : x.openTask <;> cases h3 : x.recvTask <;> cases h4 : x.pushTask <;>
+    simp [Stream.setReset, Stream.notifySend, Stream.notifyPush, Stream.notifyRecv, h1, h2, h3, h4, maskF, mask]
+
+/-- `Recv::handle_error(err, stream)` on its own entry -/
+theorem recvHandleError_get? {t : Streams} {k : Nat} {a : Stream} (err : PErr) (ha : t.store.get? k = some a) :
+    ∃ a1, (t.recvHandleError k err).store.get? k = some a1 ∧ a1.state = a.state.handleError err ∧
+      a1.pendingSend = a.pendingSend ∧ maskF a1 = maskF a := by
+  unfold Streams.recvHandleError
+  have h1 := get?_modStream_same (fun st => { st with state := st.state.handleError err }) ha rfl
+  have h2 := get?_modStreamW_same Stream.notifySend h1 (notifySend_fields _).1
+  have h3 := get?_modStreamW_same Stream.notifyRecv h2 (notifyRecv_fields' _).1
+  have h4 := get?_modStreamW_same Stream.notifyPush h3 (notifyPush_fields _).1
+  refine ⟨_, h4, ?_, ?_, ?_⟩
+  · rw [(notifyPush_fields _).2.2.1, (notifyRecv_fields' _).2.2.1, (notifySend_fields _).2.2.1]
+  · rw [(notifyPush_fields _).2.2.2.2.2.2, (notifyRecv_fields' _).2.2.2.2.2.2, (notifySend_fields _).2.2.2.2.2.2.1]
+  · rw [maskF_notifyPush, maskF_notifyRecv, maskF_notifySend]; rfl
+
+theorem clearQueue_store (t : Streams) (k : Nat) :
+    (t.clearQueue k).store =
+      (t.modStream k fun st => { st with pendingSend := [], bufferedSendData := 0, requestedSendCapacity := 0 }).store := by
+  unfold Streams.clearQueue
+  simp only
+  split
+  · split <;> rfl
+  · rfl
+
+/-- `Send::handle_error(stream)` on its own entry: the send side is cleared; a scheduled reset of a
+    stream still in `pending_open` becomes a plain library reset -/
+theorem sendHandleError_get? {t : Streams} {k : Nat} {a1 : Stream} (ha : t.store.get? k = some a1) :
+    ∃ a4, (t.sendHandleError k).store.get? k = some a4 ∧ Cleared a4 ∧ maskF a4 = maskF a1 ∧
+      a4.state = (if a1.isPendingOpen then
+                    match a1.state.getScheduledReset with
+                    | some r => a1.state.setReset a1.id r .library
+                    | none => a1.state
+                  else a1.state) := by
+  unfold Streams.sendHandleError
+  -- clear_queue
+  have h2 : (t.clearQueue k).store.get? k =
+      some { a1 with pendingSend := [], bufferedSendData := 0, requestedSendCapacity := 0 } := by
+    rw [clearQueue_store]; exact get?_modStream_same _ ha rfl
+  -- reclaim_all_capacity
+  obtain ⟨a3, h3, hu⟩ : ∃ a3, ((t.clearQueue k).reclaimAllCapacity k).store.get? k = some a3 ∧
+      Unt { a1 with pendingSend := [], bufferedSendData := 0, requestedSendCapacity := 0 } a3 := by
+    rcases (u_reclaimAllCapacity k (GStep.refl (t.clearQueue k))).keep k _ h2 with ⟨f, _⟩ | r
+    · exact f.elim
+    · exact r
+  have hst : ((t.clearQueue k).reclaimAllCapacity k).stream k = a3 := stream_eq_of_get? h3
+  have hc3 : Cleared a3 := ⟨hu.pendingSend, hu.buffered, hu.requested⟩
+  have hm3 : maskF a3 = maskF a1 := (maskF_of_mask hu).trans rfl
+  have hs3 : a3.state = a1.state := hu.state
+  have hp3 : a3.isPendingOpen = a1.isPendingOpen := hu.isPendingOpen
+  have hi3 : a3.id = a1.id := hu.id
+  simp only [hst]
+  rw [← hp3, ← hs3, ← hi3]
+  by_cases hp : a3.isPendingOpen = true
+  · cases hr : a3.state.getScheduledReset with
+    | some r =>
+      simp only [hp, if_true]
+      obtain ⟨m1, m2, m3, m4, m5⟩ := setReset_more a3 r .library
+      exact ⟨_, get?_modStreamW_same _ h3 (setReset_fields _ _ _).1, ⟨m3.trans hc3.1, m4.trans hc3.2, m5.trans hc3.3⟩,
+        m1.trans hm3, m2⟩
+    | none =>
+      simp only [hp, if_true]
+      exact ⟨a3, h3, hc3, hm3, rfl⟩
+  · simp only [hp, if_false]
+    exact ⟨a3, h3, hc3, hm3, rfl⟩
+
+/-- the per-stream closure of `recv_go_away` / `handle_error` -/
+def errClosure (err : PErr) (t : Streams) (k : Nat) : Streams :=
+  (t.transition k fun s => ((s.recvHandleError k err).sendHandleError k, ())).1
+
+theorem errClosure_eq (err : PErr) (t : Streams) (k : Nat) :
+    errClosure err t k =
+      ((t.recvHandleError k err).sendHandleError k).transitionAfter k (t.stream k).isPendingResetExpiration := by
+  unfold errClosure Streams.transition; simp only
+
+theorem errClosure_done (err : PErr) (t : Streams) (k : Nat) : Done k (errClosure err t k) :=
+  (errClosure_closure err).done t k
+theorem errClosure_rs (err : PErr) (t : Streams) (k : Nat) : RS t (errClosure err t k) :=
+  (errClosure_closure err).rs t k
+
+theorem CntEq.maskF {a c : Stream} (h : CntEq a c) : maskF c = maskF a := by
+  unfold CntEq at h; rw [← h]; rfl
+
+/-- the closure on its own entry: released, or `Failed` -/
+theorem errClosure_self {t : Streams} {k : Nat} {a : Stream} (err : PErr) (ha : t.store.get? k = some a) :
+    (errClosure err t k).store.get? k = none ∨ ∃ b, (errClosure err t k).store.get? k = some b ∧ Failed err a b := by
+  obtain ⟨a1, h1, hs1, _, hm1⟩ := recvHandleError_get? err ha
+  obtain ⟨a4, h4, hc4, hm4, hs4⟩ := sendHandleError_get? h1
+  have hp1 : a1.isPendingOpen = a.isPendingOpen := by have e := congrArg Stream.isPendingOpen hm1; exact e
+  have hi1 : a1.id = a.id := by have e := congrArg Stream.id hm1; exact e
+  have hst : a4.state = failState err a := by
+    rw [hs4, hp1, hs1, hi1]; rfl
+  rcases errClosure_done err t k with hn | ⟨b, hb, hres⟩
+  · exact Or.inl hn
+  · right
+    refine ⟨b, hb, ?_⟩
+    rw [errClosure_eq] at hb
+    rcases (transitionAfter_get? ((t.recvHandleError k err).sendHandleError k) k (t.stream k).isPendingResetExpiration).2
+      with hn | ⟨x, c, hx, hc, hxc⟩
+    · rw [hn] at hb; cases hb
+    · rw [h4] at hx; cases hx
+      rw [hc] at hb; cases hb
+      have e1 : b.state = a4.state := by have e := congrArg Stream.state hxc; exact e
+      have e2 : b.pendingSend = a4.pendingSend := by have e := congrArg Stream.pendingSend hxc; exact e
+      have e3 : b.bufferedSendData = a4.bufferedSendData := by have e := congrArg Stream.bufferedSendData hxc; exact e
+      have e4 : b.requestedSendCapacity = a4.requestedSendCapacity := by
+        have e := congrArg Stream.requestedSendCapacity hxc; exact e
+      have e5 : maskF b = maskF a4 := hxc.maskF
+      exact ⟨e5.trans (hm4.trans hm1), e1.trans hst, ⟨e2.trans hc4.1, e3.trans hc4.2, e4.trans hc4.3⟩, hres⟩
+
+/-- the closure on every other entry: still there, `Unt` -/
+theorem errClosure_other {t : Streams} {k k' : Nat} {a' : Stream} (err : PErr) (hk : k' ≠ k)
+    (ha : t.store.get? k' = some a') : ∃ b', (errClosure err t k).store.get? k' = some b' ∧ Unt a' b' := by
+  have hmid : OS k t ((t.recvHandleError k err).sendHandleError k) :=
+    o_sendHandleError k (o_recvHandleError k err (GStep.refl t))
+  rcases hmid.keep k' a' ha with ⟨f, _⟩ | ⟨b', hb', hab⟩
+  · exact f.elim
+  · refine ⟨b', ?_, hab.unt (by rw [Store.get?_key ha]; exact hk)⟩
+    rw [errClosure_eq, (transitionAfter_get? _ k _).1 k' hk]; exact hb'
+
+theorem errClosure_fresh {t : Streams} {k k' : Nat} (err : PErr) (hn : t.store.get? k' = none) :
+    (errClosure err t k).store.get? k' = none := (errClosure_rs err t k).fresh k' hn
 
 end H2V.Lemmas.ConnPartP
